@@ -559,6 +559,10 @@ def graycode(x): # grayCode, está abajo de todo y es para int32
     return x ^ (x >> 1)
 
 @scbuiltin.unop
+def not_(x):  # operator.not_ can't be dispatched to AbstractObject elements.
+    return not x
+
+@scbuiltin.unop
 def degrad(x):
     return x * pi / 180.
 
